@@ -383,6 +383,17 @@ def pred_C05(model, params, run):
         if B is not None and params["maxTime"] > B and fin["status"] != 1:
             out.append(viol("C05", "feasible project did not complete although max_time %d exceeds the sequential work bound %d" % (params["maxTime"], B),
                             status=fin["status"], time=fin["time"]))
+    # liveness beyond that fragment (facility tasks, components, placement), search only: the project is
+    # demonstrably completable — the reference semantics (the Lean model, validated against the unchanged
+    # code) completes it from the same start —, every unfinished task has an eligible worker (and
+    # worker-facility pair) and max_time exceeds the sequential work bound, yet the real run failed
+    mf = run.get("model_final")
+    if not out and ent0 is not None and mf and mf.get("status") == 1 and fin["status"] != 1:
+        B = c05_general_bound(model, params, ent0)
+        if B is not None and params["maxTime"] > B:
+            out.append(viol("C05", "project did not complete although every unfinished task has an eligible worker (and facility), max_time %d exceeds the "
+                                   "sequential work bound %d and the reference semantics completes it at time %d" % (params["maxTime"], B, mf["time"]),
+                            status=fin["status"], time=fin["time"]))
     # a non-auto unfinished task nobody can serve => not SUCCESS
     ent = run["snaps"][0][1] if run["snaps"] else None
     if ent is not None and fin["status"] == 1:
@@ -448,6 +459,55 @@ def c05_feasible_bound(model, params, ent):
     return B
 
 
+def c05_general_bound(model, params, ent):
+    """sequential work bound for any flat model whose unfinished tasks all have an eligible worker
+    (facility tasks: an eligible worker-facility pair at a workplace the task is assigned to); None otherwise"""
+    import math
+    absn = set(params["absence"])
+    for wsd in model["workers"]:
+        absn |= set(wsd["absence"])
+    for fsd in model["facs"]:
+        absn |= set(fsd["absence"])
+    B = len(absn) + 3 * model["nT"] + 1
+    for t, tk in enumerate(model["tasks"]):
+        if ent["tstate"][t] == FINISHED:
+            continue
+        rem = max(F(ent["rem"][t]), Fr(0))
+        if tk["isAuto"]:
+            if F(tk["autoRate"]) <= 0:
+                return None
+            B += math.ceil(rem / F(tk["autoRate"]))
+            continue
+        ws = [w for w, wsd in enumerate(model["workers"])
+              if has_skill(wsd["skills"], tk["name"]) and t in model["teams"][wsd["team"]]["targets"]
+              and (tk["fixW"] is None or w in tk["fixW"])]
+        if not ws:
+            return None
+        if not tk["needFac"]:
+            delta = min(F(lookup(model["workers"][w]["skills"], tk["name"])) for w in ws)
+        else:
+            if tk["comp"] is None:
+                return None
+            deltas = []
+            for q in tk["wps"]:
+                if q >= model["nWp"] or t not in model["wps"][q]["targets"]:
+                    continue
+                for f in model["wps"][q]["facs"]:
+                    fs = model["facs"][f]
+                    if not has_skill(fs["skills"], tk["name"]) or (tk["fixF"] is not None and f not in tk["fixF"]):
+                        continue
+                    for w in ws:
+                        if has_skill(model["workers"][w]["facSkills"], fs["name"]):
+                            deltas.append(F(lookup(model["workers"][w]["skills"], tk["name"])) * F(lookup(fs["skills"], tk["name"])))
+            if not deltas:
+                return None
+            delta = min(deltas)
+        if delta <= 0:
+            return None
+        B += math.ceil(rem / delta)
+    return B
+
+
 # ---- C06 ------------------------------------------------------------------------------------
 
 def ready_gate(model, ts, t):
@@ -481,6 +541,30 @@ def can_add_worker(model, st, t, w):
     if tk["fixW"] is not None and w not in tk["fixW"]:
         return False
     return has_skill(model["workers"][w]["skills"], tk["name"])
+
+
+def can_add_pair(model, st, t, w, f):
+    """can_add_resources(worker, facility) on a snapshot"""
+    tk = model["tasks"][t]
+    if st["tstate"][t] in (NONE, FINISHED):
+        return False
+    if any(model["workers"][x]["solo"] for x in st["allocW"][t]):
+        return False
+    if any(model["facs"][x]["solo"] for x in st["allocF"][t]):
+        return False
+    if model["workers"][w]["solo"] and st["allocW"][t]:
+        return False
+    if model["facs"][f]["solo"] and st["allocF"][t]:
+        return False
+    if tk["fixW"] is not None and w not in tk["fixW"]:
+        return False
+    if tk["fixF"] is not None and f not in tk["fixF"]:
+        return False
+    if st["fasg"][f]:
+        return False
+    fs = model["facs"][f]
+    return has_skill(fs["skills"], tk["name"]) and has_skill(model["workers"][w]["facSkills"], fs["name"]) \
+        and has_skill(model["workers"][w]["skills"], tk["name"])
 
 
 def pred_C06(model, params, run):
@@ -880,20 +964,38 @@ def pred_C11(model, params, run):
         pos = {t: i for i, t in enumerate(order)}
         for t2 in order:
             tk2 = model["tasks"][t2]
-            if tk2["needFac"] or tk2["isAuto"]:
+            if tk2["isAuto"]:
                 continue
             added = [w for w in post["allocW"][t2] if w not in pre["allocW"][t2]]
             for w in added:
                 ws = model["workers"][w]
                 for t1 in order[:pos[t2]]:
                     tk1 = model["tasks"][t1]
-                    if tk1["needFac"] or tk1["isAuto"]:
+                    if tk1["isAuto"]:
                         continue
-                    if has_skill(ws["skills"], tk1["name"]) and t1 in model["teams"][ws["team"]]["targets"] \
-                            and can_add_worker(model, post, t1, w):
-                        out.append(viol("C11", "worker %d given to task %d although higher-priority task %d could still take it" % (w, t2, t1),
-                                        time=pre["time"]))
-                        return out
+                    if not (has_skill(ws["skills"], tk1["name"]) and t1 in model["teams"][ws["team"]]["targets"]):
+                        continue
+                    if not tk1["needFac"]:
+                        if can_add_worker(model, post, t1, w):
+                            out.append(viol("C11", "worker %d given to task %d although higher-priority task %d could still take it" % (w, t2, t1),
+                                            time=pre["time"]))
+                            return out
+                        continue
+                    # pair form: facility task of a single-task component that sits at a workplace after the pass
+                    c1 = tk1["comp"]
+                    if c1 is None or model["comps"][c1]["tasks"] != [t1] or post["placed"][c1] is None:
+                        continue
+                    q = post["placed"][c1]
+                    if q >= model["nWp"]:
+                        continue
+                    for f in model["wps"][q]["facs"]:
+                        fs = model["facs"][f]
+                        if post["fstate"][f] != FREE or t1 not in model["wps"][fs["wp"]]["targets"]:
+                            continue
+                        if can_add_pair(model, post, t1, w, f):
+                            out.append(viol("C11", "worker %d given to task %d although higher-priority facility task %d could still take it with the free facility %d" % (w, t2, t1, f),
+                                            time=pre["time"]))
+                            return out
     return out
 
 
